@@ -1,15 +1,36 @@
 (* Executable wrapper for the C13 correspondence. *)
 From Coq Require Import String List NArith ZArith Bool.
-From V Require Import lib.Sexp model.ChunkParse.
+From V Require Import lib.Sexp model.ChunkParse model.LenRead gen.Gen_Read.
 Import ListNotations.
 Local Open Scope N_scope.
 
 Definition s_outcome (o : outcome) : N :=
   match o with Complete => 0 | InvalidChunk => 1 | Premature => 2 | Incomplete => 3 | Negative => 9 end.
 
-(* case: (bytes after the headers, amt, eof follows) *)
+Definition s_ending (e : ending) : N :=
+  match e with Normal => 0 | EIncomplete => 3 | EProtocol => 3 | OutOfFuel => 99 end.
+
+(* enforce_content_length as the source has it by default *)
+Definition enforce : bool := match Gen_Read.enforce_content_length_default with Some b => b | None => false end.
+
+(* case: (bytes after the headers, amt, eof follows) for a chunked body;
+         (1, bytes after the headers, Content-Length, api, amt, decode_content, eof follows) for a body with a length *)
 Definition run (c : sexp) : sexp :=
   match c with
+  | SL [SN 1; w; cl; SN a; amt; dc; eof] =>
+      match as_str w, as_nat cl, as_nat amt, as_bool dc, as_bool eof with
+      | Some w, Some cl, Some amt, Some dc, Some eof =>
+          let w := map N.to_nat w in
+          let ap := match a with 0 => Some ARead | 1 => Some (AReadN amt) | 3 => Some (AStream amt) | _ => None end in
+          match ap with
+          | Some ap =>
+              let '(ps, e) := run_api enforce dc w cl ap in
+              SL [SN (s_ending e); s_str (map N.of_nat (List.concat ps)); s_bool (match e with Normal => negb eof | _ => false end);
+                  s_bool (match e with Normal => true | _ => false end)]
+          | None => s_bad_case
+          end
+      | _, _, _, _, _ => s_bad_case
+      end
   | SL [w; amt; eof] =>
       match as_str w, as_opt as_nat amt, as_bool eof with
       | Some w, Some amt, Some eof =>
